@@ -14,7 +14,9 @@ EXTENDS Naturals, Sequences, FiniteSets, TLC, Json
 
 CONSTANTS MaxTokens, Emit
 
-Tokens == {"a.txt", "sub", "b.txt", "missing", "..", ".", "", "c", "i", "o", "io", "x"}
+Tokens == {"a.txt", "sub", "b.txt", "missing", "..", ".", "", "c", "i", "o", "io", "x",
+           "index.html",      \* http.FileServer sends a path ending in /index.html to its directory
+           "..\\x"}            \* a backslash is no separator: an ordinary (missing) name, not a way up
 
 (* directory trees: sets of file paths and of directory paths *)
 Trees == [
@@ -39,6 +41,11 @@ Clean(toks) == CleanR(toks, <<>>)
 CleanSlash(toks, slash) == IF Clean(toks) = <<>> THEN TRUE
                            ELSE slash \/ (toks # <<>> /\ toks[Len(toks)] = "")
 
+(* The redirect to the clean form carries the escaped path escaped once   *)
+(* more (net/http builds the Location from the already escaped path), so  *)
+(* a name that needs escaping arrives changed after a cleaning redirect.  *)
+Esc(t) == IF t = "..\\x" THEN "..%5Cx" ELSE t
+
 (* the shell routes, on a clean path *)
 ShellRoute(ct, sl) ==
   IF ct = <<"c">> /\ ~sl THEN [k |-> "script"]
@@ -51,9 +58,11 @@ ShellRoute(ct, sl) ==
 (* without it, and a directory asked for without one to the name with it; *)
 (* the redirected target is routed afresh (so /i/x/ ends at the shell     *)
 (* endpoint /i/x even if a file i/x exists).                              *)
-Outcome(toks, slash, cfg) ==
+Outcome0(toks, slash, cfg) ==
   LET ct == Clean(toks)  sl == CleanSlash(toks, slash) IN
-  IF ShellRoute(ct, sl).k # "none" THEN ShellRoute(ct, sl)
+  IF ShellRoute(ct, sl).k \in {"in", "out"} /\ toks # ct
+  THEN [k |-> ShellRoute(ct, sl).k, id |-> Esc(ct[2])]
+  ELSE IF ShellRoute(ct, sl).k # "none" THEN ShellRoute(ct, sl)
   ELSE IF cfg = "none" THEN [k |-> "notfound", handler |-> FALSE]
   ELSE IF cfg = "file" THEN [k |-> "single", handler |-> TRUE]
   ELSE LET tr == Trees[cfg] IN
@@ -64,6 +73,16 @@ Outcome(toks, slash, cfg) ==
        THEN (IF ~sl /\ ShellRoute(ct, TRUE).k # "none" THEN ShellRoute(ct, TRUE)
              ELSE [k |-> "listing", path |-> ct, handler |-> TRUE])
        ELSE [k |-> "notfound", handler |-> TRUE]
+
+(* In directory mode a target whose last name is index.html is sent to the *)
+(* directory holding it ("./"), which is routed afresh; in single-file     *)
+(* mode there is no such thing: the one file is the answer.                *)
+Outcome(toks, slash, cfg) ==
+  LET ct == Clean(toks)  sl == CleanSlash(toks, slash) IN
+  IF /\ cfg \in DOMAIN Trees /\ ShellRoute(ct, sl).k = "none"
+     /\ ct # <<>> /\ ct[Len(ct)] = "index.html" /\ ~sl
+  THEN Outcome0(SubSeq(ct, 1, Len(ct) - 1), TRUE, cfg)
+  ELSE Outcome0(toks, slash, cfg)
 
 VARIABLES toks, slash, cfg
 vars == <<toks, slash, cfg>>
